@@ -10,7 +10,7 @@ from hypothesis import strategies as st
 
 from vf import scenario_kit as kit  # noqa: F401  (Ray double first: scheduled events log through a Ray actor)
 from vf.oracles import kepler
-from vf.runner import Prop, Violation
+from vf.runner import Prop, Skip, Violation
 from vf.strategies import orbits as so
 from vf.strategies.instants import eop_instants, iso, parse
 
@@ -36,7 +36,7 @@ PROP.selftest(kepler.selftest)
 # Worst on the unchanged tree over ~3e3 cases: vs Kepler 7.5e-5 km / 8.8e-8 km/s (RK45, rtol 1e-10, 16 LEO revolutions);
 # between two integrations of the same problem (composition, batch, grid, epoch split) 1.2e-5 km / 1.3e-8 km/s.
 # Tolerances are >= 60x those; a stride slip in the batch layout or a sign slip in the epoch moves results by >= 0.1 km.
-TOL = {"kepler": (5e-3, 5e-6), "bulk": (5e-3, 5e-6), "sp_composition": (2e-3, 2e-6), "sp_epoch_split": (2e-3, 2e-6), "sp_batch": (2e-3, 2e-6)}
+TOL = {"kepler": (5e-3, 5e-6), "bulk": (5e-3, 5e-6), "bulk_events": (5e-3, 5e-6), "sp_composition": (2e-3, 2e-6), "sp_epoch_split": (2e-3, 2e-6), "sp_batch": (2e-3, 2e-6)}
 # perturbed arcs (up to 6 h, incl. shadow crossings): worst observed over ~1.5e3 cases 1.1e-4 km / 9e-8 km/s per scale unit; a one-day
 # epoch slip moves a 2 h arc by >= 0.01 km
 DEFAULT_TOL = (8e-4, 8e-7)
@@ -187,6 +187,39 @@ def two_body(c, rec):
                 single = dyn.propagate(t0, tt, x0.copy(), scheduled_events=[mk()])
                 _cmp("bulk_event", bulk_ev[:, 0, idx], single, rec, scale, f"propagateBulk output {idx + 1} of {len(times) - 1} (at {tt - t0!r}s) with an impulse scheduled on output {j_imp} vs a separate propagate() to that time")
 
+        # several scheduled events strictly between requested output times (the particle filter propagates its cloud through
+        # propagateBulk with the target's planned maneuvers): an impulse in the first gap, and in the last gap a second impulse
+        # or a short finite burn lying wholly between two output times. Every output equals a separate propagate() to that time.
+        if len(times) >= 3 and t_end >= 60.0:
+            from functools import partial
+
+            from resonaate.dynamics.integration_events.finite_thrust import ScheduledFiniteBurn, eciBurn
+            from resonaate.dynamics.integration_events.scheduled_impulse import ScheduledECIImpulse
+            from resonaate.physics.time.stardate import ScenarioTime
+
+            mode = ("two_impulses", "impulse_and_burn", "burn_between_outputs")[int(abs(c["grid"][0]) * 1e6) % 3]
+            g0, g1 = times[-2], times[-1]
+            b0, b1 = g0 + 0.4 * (g1 - g0), g0 + 0.4 * (g1 - g0) + min(60.0, 0.2 * (g1 - g0))
+
+            def mk2():
+                evs = []
+                if mode != "burn_between_outputs":
+                    evs.append(ScheduledECIImpulse(ScenarioTime(times[0] + 0.5 * (times[1] - times[0])), np.array([0.0, 2e-3, 1e-3]), 1))
+                if mode == "two_impulses":
+                    evs.append(ScheduledECIImpulse(ScenarioTime(g0 + 0.5 * (g1 - g0)), np.array([1e-3, 0.0, -2e-3]), 1))
+                else:
+                    evs.append(ScheduledFiniteBurn(ScenarioTime(b0), ScenarioTime(b1), partial(eciBurn, acc_vector=np.array([0.0, 1e-5, 0.0])), 1))
+                return evs
+
+            if b1 > b0 + 1e-3:
+                rec.label("bulk_with_events_between_outputs:" + mode)
+                bulk_e2 = TwoBody(method=c["method"]).propagateBulk(times, x0.reshape(6, 1).copy(), scheduled_events=mk2())
+                if bulk_e2.shape != (6, 1, len(times) - 1):
+                    raise Violation("shape", f"propagateBulk with {mode} returned shape {bulk_e2.shape} for {len(times)} times")
+                for idx, tt in enumerate(times[1:]):
+                    single = TwoBody(method=c["method"]).propagate(t0, tt, x0.copy(), scheduled_events=mk2())
+                    _cmp("bulk_events", bulk_e2[:, 0, idx], single, rec, scale, f"propagateBulk output {idx + 1} of {len(times) - 1} (at {tt - t0!r}s of {t_end!r}s) with {mode} between the output times vs a separate propagate() to that time")
+
 
 # ------------------------------------------------------------------------------------------------
 def _sp_cases():
@@ -243,3 +276,52 @@ def perturbed(c, rec):
         for j in range(k):
             single = dyn.propagate(t0, t0 + dur, batch[j].copy())
             _cmp("sp_batch", out[:, j], single, rec, scale, f"column {j} of a perturbed batch of {k} vs the same state alone")
+
+
+# ------------------------------------------------------------------------------------------------
+# the same relation for dynamics built the way a scenario builds them (dynamicsFactory + the scenario clock): an agent that joins
+# a running scenario when the clock reads tau propagates in the scenario's elapsed seconds
+# ------------------------------------------------------------------------------------------------
+def _factory_cases():
+    def mk(t, el, dur, tau, deg, bodies, srp, meth, model):
+        return {"t": iso(t), **el, "T": dur, "tau": tau, "deg": deg, "bodies": bodies, "srp": srp, "method": meth, "model": model}
+
+    return st.builds(
+        mk, eop_instants(margin_days=3), so.elements(e_cap=0.6, min_perigee_alt=300.0, a_max=45000.0), st.sampled_from([120.0, 600.0, 1800.0, 3600.0]),
+        st.sampled_from([60, 300, 1800, 3600, 43200, 86400]), st.sampled_from([0, 2, 4, 8]), st.sampled_from([[], ["sun"], ["sun", "moon"]]),
+        st.booleans(), st.sampled_from(["RK45", "DOP853"]), st.sampled_from(["special_perturbations", "special_perturbations", "two_body"]))
+
+
+@PROP.clause("factory_epoch", strategy=_factory_cases, quick=60, thorough=1500, shards=8)
+def factory_epoch(c, rec):
+    """dynamicsFactory on a scenario clock that has already advanced by tau (agent added mid-run) vs on a fresh clock started tau later: same absolute epoch, same trajectory"""
+    from resonaate.dynamics import dynamicsFactory
+    from resonaate.scenario.clock import ScenarioClock
+    from resonaate.scenario.config.agent_config import AgentConfig
+    from resonaate.scenario.config.geopotential_config import GeopotentialConfig
+    from resonaate.scenario.config.perturbations_config import PerturbationsConfig
+    from resonaate.scenario.config.propagation_config import PropagationConfig
+
+    t = parse(c["t"])
+    tau, dur = c["tau"], c["T"]
+    x0 = _state(c)
+    geo = GeopotentialConfig(model="egm96.txt", degree=c["deg"], order=c["deg"])
+    per = PerturbationsConfig(third_bodies=list(c["bodies"]), solar_radiation_pressure=c["srp"], general_relativity=False)
+    prop = PropagationConfig(propagation_model=c["model"], integration_method=c["method"])
+    agent = AgentConfig(id=40001, name="late", state={"type": "eci", "position": [float(v) for v in x0[:3]], "velocity": [float(v) for v in x0[3:]]},
+                        platform={"type": "spacecraft", "mass": 500.0, "visual_cross_section": 10.0})
+    kit.fresh_db()
+    running = ScenarioClock(t - timedelta(seconds=tau), 2.0 * tau, float(tau))
+    running.ticToc()
+    if float(running.time) != tau or running.datetime_epoch != t:
+        raise Skip(f"clock did not advance as set up ({running.time}, {running.datetime_epoch})")
+    late = dynamicsFactory(agent, prop, geo, per, running)
+    kit.fresh_db()
+    fresh = dynamicsFactory(agent, prop, geo, per, ScenarioClock(t, 2.0 * tau, float(tau)))
+    a = late.propagate(float(tau), float(tau) + dur, x0.copy())
+    b = fresh.propagate(0.0, dur, x0.copy())
+    scale = max(1.0, dur / 3600.0) * (5.0 if c["srp"] else 1.0)
+    rec.label(c["model"])
+    if c["model"] != "two_body" and (c["deg"] >= 2 or c["bodies"] or c["srp"]):
+        rec.nontrivial([c["t"], round(c["a"], -2), tau, dur, c["deg"], tuple(c["bodies"]), c["srp"], c["method"]])
+    _cmp("sp_epoch_split", a, b, rec, scale, f"agent built by dynamicsFactory when the scenario clock reads {tau}s vs the same agent on a scenario started {tau}s later ({c['model']}, deg {c['deg']}, {c['bodies']}, srp={c['srp']}, {c['method']}, {dur}s arc at {c['t']})")
